@@ -46,12 +46,12 @@ DOMAIN = {
     "quantized_tanh": {"bits": [4], "use_stochastic_rounding": [True], "symmetric": [True], "use_real_tanh": [True]},
     "quantized_sigmoid": {"bits": [4], "symmetric": [True], "use_real_sigmoid": [True], "use_stochastic_rounding": [True]},
     "quantized_po2": {
-        "bits": [4, 5], "max_value": [2.0, 0.5, 3.0], "use_stochastic_rounding": [True],
+        "bits": [4, 5], "max_value": [2.0, 0.5, 3.0, 1.5], "use_stochastic_rounding": [True],
         "quadratic_approximation": [True], "log2_rounding": ["floor"], "qnoise_factor": [0.5],
         "var_name": ["vq"], "use_ste": [False], "use_variables": [True],
     },
     "quantized_relu_po2": {
-        "bits": [4, 5], "max_value": [2.0, 0.5, 3.0], "negative_slope": [0.25], "use_stochastic_rounding": [True],
+        "bits": [4, 5], "max_value": [2.0, 0.5, 3.0, 1.5], "negative_slope": [0.25], "use_stochastic_rounding": [True],
         "quadratic_approximation": [True], "log2_rounding": ["floor"], "qnoise_factor": [0.5],
         "var_name": ["vq"], "use_ste": [False], "use_variables": [True],
     },
